@@ -157,7 +157,8 @@ class ConfigList(ComposedNode, list):
             if _missing_keys:
                 raise MergeError(f'merging a dict into a list requires all dict nodes to map to the existing indices in the list but the following keys are invalid: {_missing_keys}', node=self, path=prefix, extra_node=first_missing)
 
-        if isinstance(other, ComposedNode):
+        if isinstance(other, ComposedNode) and not (isinstance(other, dict) and other.ayns.delete):
+            # (the keys of a deleting mapping are not positions in this list, nothing of it competes with the elements)
             # a deleting element of "other" which is outranked by the element it would replace (or by this list,
             # if it would be appended) has no effect at all, drop it together with everything below it; whatever
             # is nested deeper competes when (and if) the corresponding nodes are merged
